@@ -157,7 +157,8 @@ VARIABLES atoms,     \* atoms emitted so far
 vars == <<atoms, pos, n, dev, phase, padlen, out>>
 
 \* lengths (functions of the state because of PAD)
-Width(c) == CASE c = "u2" -> 2 [] c = "u4" -> 4 [] c = "PAD" -> padlen [] OTHER -> 1
+BaseWidth(c) == CASE c = "u2" -> 2 [] c = "u4" -> 4 [] OTHER -> 1
+Width(c) == IF c = "PAD" THEN padlen ELSE BaseWidth(c)
 Count(c) == IF c = "PAD" THEN padlen ELSE 1
 ByteLen(s) == LET f[i \in 0..Len(s)] == IF i = 0 THEN 0 ELSE f[i - 1] + Width(s[i]) IN f[Len(s)]
 CpLen(s)   == LET f[i \in 0..Len(s)] == IF i = 0 THEN 0 ELSE f[i - 1] + Count(s[i]) IN f[Len(s)]
@@ -174,7 +175,8 @@ PortOK(p) == Len(p) \in 1..5 /\ All(p, IsDigit) /\ Val(p) <= 65535
 
 \* IPv4address = 1*3DIGIT "." 1*3DIGIT "." 1*3DIGIT "." 1*3DIGIT, each in 0..255
 Octet(o) == Len(o) \in 1..3 /\ All(o, IsDigit) /\ Val(o) <= 255
-IPv4OK(h) == \E i, j, k \in 1..Len(h) :
+IPv4OK(h) == /\ Len(h) \in 7..15 /\ All(h, LAMBDA c : IsDigit(c) \/ c = ".")
+             /\ \E i, j, k \in 1..Len(h) :
                 /\ i < j /\ j < k /\ h[i] = "." /\ h[j] = "." /\ h[k] = "."
                 /\ Octet(SubSeq(h, 1, i - 1)) /\ Octet(SubSeq(h, i + 1, j - 1))
                 /\ Octet(SubSeq(h, j + 1, k - 1)) /\ Octet(SubSeq(h, k + 1, Len(h)))
@@ -244,28 +246,46 @@ PortForm(p) ==
       [] Len(p) > 5 -> ">5digits"
       [] Val(p) > 65535 -> ">65535"
       [] OTHER -> "ok"
-SNForm(s) ==
-    IF Len(s) = 0 THEN "empty"
-    ELSE LET j == IF s[Len(s)] = "]" THEN 0 ELSE LastColon(s) IN
-         IF j = 0 THEN "host=" \o HostForm(s) \o ",port=none"
-         ELSE "host=" \o HostForm(SubSeq(s, 1, j - 1)) \o ",port=" \o PortForm(SubSeq(s, j + 1, Len(s)))
-LenForm(s) == IF ByteLen(s) <= 255 THEN "ok" ELSE IF CpLen(s) <= 255 THEN "bytes>255" ELSE ">255"
+\* (host, port) as a reader would take them: the port is what follows the last colon outside brackets
+CandHost(s) == LET j == IF s[Len(s)] = "]" THEN 0 ELSE LastColon(s) IN IF j = 0 THEN s ELSE SubSeq(s, 1, j - 1)
+CandPort(s) == LET j == IF s[Len(s)] = "]" THEN 0 ELSE LastColon(s) IN IF j = 0 THEN <<"none">> ELSE SubSeq(s, j + 1, Len(s))
+HostGood(f) == f \in {"ipv4", "dns", "[v6]", "[v6unlisted]"}
+\* full description, and the clauses at fault (those that fail even in the lax reading)
+SNForm(s) == IF Len(s) = 0 THEN "empty"
+             ELSE "host=" \o HostForm(CandHost(s)) \o ",port=" \o (IF CandPort(s) = <<"none">> THEN "none" ELSE PortForm(CandPort(s)))
+SNFault(s) == IF Len(s) = 0 THEN "empty;"
+              ELSE (IF HostGood(HostForm(CandHost(s))) THEN "" ELSE "host=" \o HostForm(CandHost(s)) \o ";")
+                   \o (IF CandPort(s) = <<"none">> \/ PortForm(CandPort(s)) = "ok" THEN "" ELSE "port=" \o PortForm(CandPort(s)) \o ";")
 FirstBad(l, P(_)) == CharClass(l[CHOOSE i \in 1..Len(l) : ~P(l[i]) /\ \A k \in 1..(i - 1) : P(l[k])])
-LocalForm(l, mode) ==
+LocalFault(l, kind) ==
+    CASE kind = "strict" -> IF Len(l) = 0 THEN "local=empty;"
+                            ELSE IF All(l, LAMBDA c : StrictLocalChar(c) \/ c = "+") THEN ""
+                            ELSE "local=has:" \o FirstBad(l, LAMBDA c : StrictLocalChar(c) \/ c = "+") \o ";"
+      [] kind = "hist" -> ""
+      [] kind = "room" -> IF Len(l) = 0 THEN "opaque=empty;" ELSE ""
+LocalForm(l, kind) ==
     IF Len(l) = 0 THEN "empty"
-    ELSE IF mode = "strict"
-         THEN IF All(l, StrictLocalChar) THEN "ok" ELSE "has:" \o FirstBad(l, StrictLocalChar)
-         ELSE IF All(l, LAMBDA c : c # "nul") THEN "ok" ELSE "has:nul"
-IDForm(s, sigil, mode) ==
+    ELSE IF kind = "strict" THEN (IF All(l, StrictLocalChar) THEN "ok" ELSE "has:" \o FirstBad(l, StrictLocalChar))
+    ELSE IF All(l, LAMBDA c : c # "nul") THEN "ok" ELSE "has:nul"
+DomainlessForm(s) == "domainless,n" \o (IF CpLen(Tail2(s)) < 43 THEN "<43" ELSE IF CpLen(Tail2(s)) = 43 THEN "=43" ELSE ">43")
+                     \o (IF All(Tail2(s), UrlSafeChar) THEN "" ELSE ",has:" \o FirstBad(Tail2(s), UrlSafeChar))
+\* kind: "strict" | "hist" (user IDs), "room"
+IDSigil(kind) == IF kind = "room" THEN "!" ELSE "@"
+IDForm(s, kind) ==
     IF Len(s) = 0 THEN "empty"
-    ELSE IF s[1] # sigil THEN "sigil=" \o CharClass(s[1])
+    ELSE IF s[1] # IDSigil(kind) THEN "sigil=" \o CharClass(s[1])
     ELSE LET i == FirstColon(s) IN
-         IF i = 0
-         THEN (IF sigil = "!"
-               THEN "domainless,n=" \o (IF CpLen(Tail2(s)) < 43 THEN "<43" ELSE IF CpLen(Tail2(s)) = 43 THEN "43" ELSE ">43")
-                    \o (IF All(Tail2(s), UrlSafeChar) THEN ",urlsafe" ELSE ",has:" \o FirstBad(Tail2(s), UrlSafeChar))
-               ELSE "nocolon")
-         ELSE "local=" \o LocalForm(SubSeq(s, 2, i - 1), mode) \o "," \o SNForm(SubSeq(s, i + 1, Len(s))) \o ",len=" \o LenForm(s)
+         IF i = 0 THEN (IF kind = "room" THEN DomainlessForm(s) ELSE "nocolon")
+         ELSE "local=" \o LocalForm(SubSeq(s, 2, i - 1), kind) \o "," \o SNForm(SubSeq(s, i + 1, Len(s)))
+IDFault(s, kind) ==
+    IF Len(s) = 0 THEN "empty;"
+    ELSE IF s[1] # IDSigil(kind) THEN "sigil=" \o CharClass(s[1]) \o ";"
+    ELSE LET i == FirstColon(s) IN
+         (IF i = 0 THEN (IF kind = "room" THEN (IF DomainlessOK(s) THEN "" ELSE DomainlessForm(s) \o ";") ELSE "nocolon;")
+          ELSE LocalFault(SubSeq(s, 2, i - 1), kind) \o SNFault(SubSeq(s, i + 1, Len(s))))
+         \o (IF CpLen(s) > 255 THEN "len>255;" ELSE "")
+\* name of a disagreement: the faults when the grammar refuses, the whole description when it accepts
+KeyOf(form, fault) == IF fault = "" THEN "valid:" \o form ELSE "fault:" \o fault
 
 \* --------------------------------------------------------------------------
 \* the speller
@@ -310,7 +330,8 @@ Spell(m) ==
 Close(total) ==
     /\ phase = "spell"
     /\ IF HasPad THEN total \in {254, 255, 256} ELSE total = 0
-    /\ LET rest == Len(SelectSeq(Flatten(atoms), LAMBDA c : c # "PAD"))     \* PAD strings contain only 1-byte characters otherwise
+    /\ LET cs == SelectSeq(Flatten(atoms), LAMBDA c : c # "PAD")
+           rest == LET f[i \in 0..Len(cs)] == IF i = 0 THEN 0 ELSE f[i - 1] + BaseWidth(cs[i]) IN f[Len(cs)]
        IN  padlen' = IF HasPad THEN total - rest ELSE 0
     /\ phase' = "closed"
     /\ UNCHANGED <<atoms, pos, n, dev, out>>
@@ -332,8 +353,9 @@ Judge ==
                    port |-> IF j = 0 THEN -1 ELSE Val(SubSeq(s, j + 1, Len(s))),
                    nsplit |-> Cardinality(SNSplits(s, TRUE)),
                    bytes |-> ByteLen(s),
-                   ku |-> IDForm(s, "@", "strict"), kh |-> IDForm(s, "@", "hist"),
-                   kr |-> IDForm(s, "!", "hist"), ks |-> SNForm(s) ]
+                   fu |-> IDFault(s, "strict"), fh |-> IDFault(s, "hist"), fr |-> IDFault(s, "room"), fs |-> SNFault(s),
+                   ku |-> KeyOf(IDForm(s, "strict"), IDFault(s, "strict")), kh |-> KeyOf(IDForm(s, "hist"), IDFault(s, "hist")),
+                   kr |-> KeyOf(IDForm(s, "room"), IDFault(s, "room")), ks |-> KeyOf(SNForm(s), SNFault(s)) ]
     /\ phase' = "done"
     /\ UNCHANGED <<atoms, pos, n, dev, padlen>>
 
@@ -342,8 +364,7 @@ NoOut == [s |-> <<>>]
 Init == /\ atoms = <<>> /\ n = 0 /\ dev = 0 /\ phase = "spell" /\ padlen = 0 /\ out = NoOut
         /\ pos \in (IF Mode = "free" THEN {"free"} ELSE {"start", "host"})
 
-Next == \/ \E p \in {"free", "start", "local", "host", "v6", "v6close", "hostdone", "port", "end"} :
-              p = pos /\ \E m \in Moves(p, n) : Spell(m)
+Next == \/ \E m \in Moves(pos, n) : Spell(m)
         \/ \E t \in {0, 254, 255, 256} : Close(t)
         \/ Judge
 
@@ -384,6 +405,11 @@ AcceptedShape ==
             /\ (out.sn = "acc") => /\ Len(S) >= 1
                                    /\ (out.pcut > 0 => out.port \in 0..65535 /\ Len(S) - out.pcut \in 1..5)
                                    /\ (out.pcut = 0 => out.port = -1)
+\* the clause-by-clause description used to name disagreements agrees with the recognisers
+FaultAgrees == Done => /\ (out.us = "acc" => out.fu = "") /\ (out.us = "rej" => out.fu # "")
+                       /\ (out.uh = "acc" => out.fh = "") /\ (out.uh = "rej" => out.fh # "")
+                       /\ (out.rm = "acc" => out.fr = "") /\ (out.rm = "rej" => out.fr # "")
+                       /\ (out.sn = "acc" => out.fs = "") /\ (out.sn = "rej" => out.fs # "")
 \* no identifier is valid for two kinds; IPv4 literals are DNS names as well
 KindsDisjoint == Done => ~(out.rm # "rej" /\ out.uh # "rej")
 IPv4WithinDns == Done => (IPv4OK(S) => DnsOK(S))
